@@ -15,6 +15,15 @@ class CallMixin:
     # ------------------------------------------------------------------ assignment
     def assign(self, t, v, path):
         if isinstance(t, ast.Name):
+            if t.id not in path.env and getattr(self.registry, "module_state", None):
+                # in-place update of a module-level container declared as state
+                mod = self.frames[-1].module
+                kind, obj = self.repo.resolve_name(mod, t.id)
+                f = self.module_state_field(kind, obj)
+                if f is not None:
+                    path.heap_set(self, sv.WORLD, f, v)
+                    self.note_write(path, sv.WORLD, f, t)
+                    return
             path.env[t.id] = v
             return
         if isinstance(t, (ast.Tuple, ast.List)):
